@@ -31,6 +31,14 @@ func (data MoveStakeData) Gas() int64 {
 }
 
 func (data MoveStakeData) basicCheck(tx *Transaction, context *state.CheckState) *Response {
+	if data.Value == nil || data.Value.Sign() != 1 {
+		return &Response{
+			Code: code.DecodeError,
+			Log:  "Incorrect tx data",
+			Info: EncodeError(code.NewDecodeError()),
+		}
+	}
+
 	if data.FromPubKey.Equals(data.ToPubKey) {
 		return &Response{
 			Code: code.EqualPubKey,
